@@ -301,7 +301,15 @@ where
                 1 => ctx.neg(&Ctx::ONE),
                 _ => [0x1234_5678_9ABC % B::P, (E::EXTENSION_DEGREE > 1) as u128, 0],
             };
-            cols[c.col][c.step] = ctx.add(&cols[c.col][c.step], &d);
+            if c.step == usize::MAX {
+                // the whole column shifted by a constant: every running-sum transition still holds, only the
+                // assertion on the column is violated
+                for cell in cols[c.col].iter_mut() {
+                    *cell = ctx.add(cell, &d);
+                }
+            } else {
+                cols[c.col][c.step] = ctx.add(&cols[c.col][c.step], &d);
+            }
             // reference validity of the corrupted auxiliary segment
             if spec.has_lagrange() && c.col == spec.sum_cols() {
                 verdict = Err("Lagrange kernel column changed (every cell of it is determined)".into());
